@@ -2,8 +2,8 @@
  *
  * stdin : one op per line, key=value tokens
  *    id=<n> conv=<mbstowcs_s|mbsrtowcs_s|wcstombs_s|wcsrtombs_s|wcrtomb_s|wctomb_s|L_*> loc=<C|U>
- *    dest=<-|e|hex,hex,..>   initial PHYSICAL cells of dest ("-" = NULL pointer); the object ends at a PROT_NONE page
- *    dmax=<n> len=<n> src=<-|e|hex,..> (cells before the terminator) wc=<hex> bos=<-|bytes> ps=<e|pending bytes>
+ *    dest=<-|z|hex,hex,..>   initial PHYSICAL cells of dest ("-" = NULL pointer); the object ends at a PROT_NONE page
+ *    dmax=<n> len=<n> src=<-|z|hex,..> (cells before the terminator) wc=<hex> bos=<-|bytes> ps=<z|pending bytes>
  *    rvn=1 (retvalp NULL) spn=1 (srcp NULL) psn=1 (ps NULL) alias=1 (source pointer == dest) errno=<n>
  * stdout: one observation per op
  *    id=<n> ret=<errno_t> rv=<ns|value> dest=<cells|-> fault=<0|1> fa=<guard|null|other|-> src=<-1|offset in cells>
@@ -76,7 +76,7 @@ static char *tok(char *line, const char *key, char *buf, size_t n) {
 static long cells(char *line, const char *key, uint32_t *out, long max) {
     static char buf[MAXC * 9 + 16];
     if (!tok(line, key, buf, sizeof buf) || !strcmp(buf, "-")) return -1;
-    if (!strcmp(buf, "e")) return 0;
+    if (!strcmp(buf, "z")) return 0;
     long n = 0;
     char *p = buf;
     while (*p && n < max) {
@@ -92,12 +92,12 @@ static unsigned long num(char *line, const char *key, unsigned long dflt) {
 }
 static void pcells8(const char *k, const unsigned char *p, long n) {
     printf(" %s=", k);
-    if (n <= 0) { printf("e"); return; }
+    if (n <= 0) { printf("z"); return; }
     for (long i = 0; i < n; i++) printf(i ? ",%x" : "%x", p[i]);
 }
 static void pcells32(const char *k, const uint32_t *p, long n) {
     printf(" %s=", k);
-    if (n <= 0) { printf("e"); return; }
+    if (n <= 0) { printf("z"); return; }
     for (long i = 0; i < n; i++) printf(i ? ",%x" : "%x", p[i]);
 }
 static void pstate(const char *k, const mbstate_t *ps) { printf(" %s=%d:%x", k, ps->__count, (unsigned)ps->__value.__wch); }
@@ -231,7 +231,7 @@ int main(void) {
                     errno = 0; size_t r; long so = 0;
                     if (mbsrc) { const char *p = srcb; r = restart ? mbsrtowcs(NULL, &p, len, &st) : mbstowcs(NULL, srcb, len); so = p ? p - srcb : -1; }
                     else { const wchar_t *p = srcw; r = restart ? wcsrtombs(NULL, &p, len, &st) : wcstombs(NULL, srcw, len); so = p ? p - srcw : -1; }
-                    printf(" r=%lu out=e src=%ld", (unsigned long)r, so); pstate("st", &st); printf(" e=%d", errno == EILSEQ);
+                    printf(" r=%lu out=z src=%ld", (unsigned long)r, so); pstate("st", &st); printf(" e=%d", errno == EILSEQ);
                 } else {
                     if (mbsrc) ref_mb2wc("", restart, len, pcellsbuf, npend); else ref_wc2mb("", restart, len);
                     printf(" e=%d", errno == EILSEQ);
